@@ -11,6 +11,7 @@ exported; the loader function matches the template expression's shape and
 get_or_select_template dispatches on str / Undefined / Template / iterable; parser defaults
 match the documentation; building a child context never stores into a dict the caller owns.
 Also: Context.get_all overlays vars on parent; dump_stores hands out the innermost visible binding.  
+Also: every emitted exported_vars literal removes names in the import visitors and adds them in assignments / macros.  
 Not decided: contents of included templates / modules.
 """
 
